@@ -338,7 +338,8 @@ def main(argv=None):
             "exhaustive": not problems and not E.STOP_EVENT[0].is_set(),
             "units": unit_reports,
             "queries": {"sat": total.sat, "unsat": total.unsat,
-                        "unknown": total.unknown},
+                        "unknown": total.unknown,
+                        "asked_again_from_scratch": total.rechecks},
             "obligations_discharged": total.proved,
             "solver_s": round(total.solver_s, 2),
             "second_solver": {
